@@ -78,6 +78,7 @@ type Gen struct {
 	nInstr, nHavoc int
 	retOrd map[*ssa.Return]int
 	droppable map[int]bool
+	constLen  map[string]int64 // SMT names of slice values whose length is a known constant
 	hyps      []*hyp
 	seenIdx   []string
 	seenSet   map[string]bool
@@ -130,7 +131,7 @@ func newGen(ctx *Ctx, fn *ssa.Function, con *Contract) *Gen {
 	g := &Gen{Ctx: ctx, fn: fn, con: con, key: funcKey(fn),
 		vals: map[ssa.Value]*SV{}, exit: map[*ssa.BasicBlock]*State{}, reach: map[*ssa.BasicBlock]string{},
 		edgeOK: map[[2]int]string{}, loopOf: map[*ssa.BasicBlock]*loopInfo{}, paramSV: map[string]*SV{},
-		safeCtr: map[string]int{}, unmodelled: map[string]bool{}, allocsByName: map[string][]*ssa.Alloc{},
+		safeCtr: map[string]int{}, unmodelled: map[string]bool{}, allocsByName: map[string][]*ssa.Alloc{}, constLen: map[string]int64{},
 		backEdges: map[[2]int]bool{}, loopDec: map[*loopInfo]string{}, loopHeadState: map[*loopInfo]*State{}}
 	g.pa = con.Level == "PA"
 	return g
@@ -1119,6 +1120,9 @@ func (g *Gen) define(v ssa.Value, term string) *SV {
 	}
 	g.declareConst(n, g.sortOf(t))
 	g.addFact("(= " + n + " " + term + ")")
+	if cl, ok := g.constLen[term]; ok {
+		g.constLen[n] = cl
+	}
 	sv := &SV{S: n, T: t}
 	g.vals[v] = sv
 	return sv
